@@ -147,6 +147,9 @@ type C17Case struct {
 	Derived bool `json:"second_run_options_copied_from_used_object"`
 	// InPlace: the second run re-uses the very options object of earlier unrelated work, every setting overwritten in place
 	InPlace bool `json:"second_run_options_object_reused_in_place"`
+	// UsedExecutor: the second run is turned over by an executor object that served an unrelated population (other options
+	// object, other size) before: an executor is a stateless tool between turnovers
+	UsedExecutor bool `json:"second_run_executor_object_used_before,omitempty"`
 }
 
 // deriveOptions: a by-value copy of a used options object with every exported field set from want.
@@ -210,6 +213,7 @@ func genC17() *rapid.Generator[C17Case] {
 		for i := 0; i < n; i++ {
 			c.Others = append(c.Others, other.Draw(t, "unrelated"))
 		}
+		c.UsedExecutor = rapid.IntRange(0, 3).Draw(t, "used executor") == 0
 		return c
 	})
 }
@@ -258,7 +262,25 @@ func CheckC17(c C17Case, rec *Rec) error {
 		}
 		rec.Class("second run with options copied from a used object")
 	}
+	if c.UsedExecutor && !sc.Opts.Parallel {
+		// prepared before the second run starts: nothing may draw from the random source while the scenario is running
+		ex := &genetics.SequentialPopulationEpochExecutor{}
+		uo := defaultOpts()
+		uo.PopSize, uo.CompatThreshold, uo.SurvivalThresh, uo.DropOffAge = 7, 0.5, 0.6, 3
+		u := uo.Build()
+		if pop, err := genetics.NewPopulation(xorStart().Build(), u); err == nil {
+			for e := 0; e < 2; e++ {
+				for i, o := range pop.Organisms {
+					o.Fitness = float64(1 + (i*5+e)%7)
+				}
+				_ = ex.NextEpoch(u.NeatContext(), e, pop)
+			}
+		}
+		preparedExecutor = ex
+		rec.Class("second run turned over by an executor object that served another population")
+	}
 	d2, w2, _, err2 := evolve(sc)
+	preparedExecutor = nil
 	buildOptions = func(o OptSpec) *neat.Options { return o.Build() }
 	if len(sc.Start.Modules) > 0 {
 		rec.Class("modular start genome")
